@@ -190,7 +190,7 @@ for _pid, _sp in PROPS.items():
         _cand = _i["cfg"].replace("_quick.cfg", "_thorough.cfg")
         if _os.path.exists(_os.path.join(_SPEC, _cand)):
             _t["cfg"] = _cand
-        _t["nprimes"] = 10
+        _t["nprimes"] = max(10, _t.get("nprimes", 0))
         _t["timeout"] = 10800
         if _t["cfg"] in _THOROUGH_SAMPLING:
             _t["sample_mod"] = _THOROUGH_SAMPLING[_t["cfg"]]
@@ -203,6 +203,8 @@ for _pid, _m, _c in (("C01", "MC_C01", "MC_C01_xl.cfg"), ("C07", "MC_COND", "MC_
     if _pid not in ("C12", "C15"):
         PROPS[_pid]["quick"].append({"module": _m, "cfg": _c, "nprimes": 22 if _pid == "C01" else 12})
 PROPS["C03"]["thorough"].append({"module": "MC_C03", "cfg": "MC_C03b_thorough.cfg", "nprimes": 12, "timeout": 10800})
+PROPS["C04"]["thorough"].append({"module": "MC_SESSION", "cfg": "MC_C04Mf_thorough.cfg", "nprimes": 10, "timeout": 10800, "sample_mod": 10,
+                                 "require_acts": ["Multiply", "Hadamard"]})
 
 NOT_APPLICABLE = {}
 HOOK_COMMITS = []
